@@ -978,7 +978,9 @@ def null_model_dir_sign(W, bin_swaps=5, wei_freq=.1, seed=None):
             W0.flat[Lij[Oind]] = s * Wv  # weight at this index
         else:
             wsize = np.size(Wv)
-            wei_period = np.round(1 / wei_freq).astype(int)  # convert frequency to period
+            # convert frequency to period; a period beyond the number of weights means one single round
+            # (and np.round(1 / wei_freq).astype(int) overflows for wei_freq below about 1e-19)
+            wei_period = int(min(np.round(1 / wei_freq), max(wsize, 1)))
             lq = np.arange(wsize, 0, -wei_period, dtype=int)
             for m in lq:  # iteratively explore at this period
                 # get indices of Lij that sort P
@@ -1104,7 +1106,9 @@ def null_model_und_sign(W, bin_swaps=5, wei_freq=.1, seed=None):
             W0.flat[Lij[Oind]] = s * Wv  # weight at this index
         else:
             wsize = np.size(Wv)
-            wei_period = np.round(1 / wei_freq).astype(int)  # convert frequency to period
+            # convert frequency to period; a period beyond the number of weights means one single round
+            # (and np.round(1 / wei_freq).astype(int) overflows for wei_freq below about 1e-19)
+            wei_period = int(min(np.round(1 / wei_freq), max(wsize, 1)))
             lq = np.arange(wsize, 0, -wei_period, dtype=int)
             for m in lq:  # iteratively explore at this period
                 # get indices of Lij that sort P
